@@ -25,6 +25,7 @@ import (
 type persistGate struct {
 	kind    string // index.ItemKindSegment or index.ItemKindSnapshot
 	armed   bool
+	zeroAck bool // hold only a Persist of a job whose grab took no waiting acknowledgement (no caller blocked)
 	held    chan struct{} // closed when the persister has arrived
 	release chan struct{} // closed to let it go on
 }
@@ -33,7 +34,7 @@ type persistGate struct {
 func (c *caseRun) gateWait(kind string, isMerge bool) {
 	c.mu.Lock()
 	g := c.gate
-	if g == nil || !g.armed || isMerge || kind != g.kind {
+	if g == nil || !g.armed || isMerge || kind != g.kind || (g.zeroAck && c.lastGrabX != 0) {
 		c.mu.Unlock()
 		return
 	}
